@@ -137,6 +137,9 @@ def check():
             if p["name"].startswith("linear") or p["name"] == "sho":
                 if rng.random() < 0.5:
                     c += " constjac=1"
+            # memory layout / container of the Jacobian handed to the binding: C order, Fortran order, transposed view,
+            # strided view, nested lists
+            c += " pyjaclayout=" + rng.choice(["c", "f", "f", "t", "s", "l"])
         if rng.random() < 0.3:
             c += " pyargs=1"
         if rng.random() < 0.3:
